@@ -6,7 +6,7 @@
 //@ entry h_ser_cls_XMLDateTime
 //@ note W: the two element loops of XMLDateTime::serialize (TOTAL_SIZE = 8 fields, TIMEZONE_ARRAYSIZE = 2, both from the real header) are unwound completely; the real body runs twice on one object: store mode onto the tape, then -- after the whole object has been given arbitrary values again -- load mode from the tape; every member value is symbolic
 //@ note tape engine (contracts/ser_tape.inc): operator<< / operator>> / writeSize / readSize / writeString / readString and the sub-object serialisers (XTemplateSerializer::storeObject/loadObject, DatatypeValidator::storeDV/loadDV, Base::serialize ...) are trusted stubs that record / check (type tag, value); the tag of a streamed operand comes from its REAL type (member types from the real class declaration, casts from the code) via _Generic; strings, containers and pointers to serialisable objects are opaque ids (the pointer value stands for the object; loading yields the id that was stored); the byte-level engine is the subject of units ser_primitives, ser_fillflush, ser_rawbytes
-//@ note STRICT variant of unit ser_cls_XMLDateTime: additionally compares fMilliSecond (the fraction of a second; fValue[MiliSecond] is "not to be used directly") and fHasTime, which XMLDateTime::compareOrder consults: they are part of the VALUE of a dateTime / time facet (maxInclusive, enumeration ...) that travels through AbstractNumericFacetValidator::storeClusive / XMLNumber::loadNumber
+//@ note compares also fMilliSecond (the fraction of a second; fValue[MiliSecond] is "not to be used directly") and fHasTime, which XMLDateTime::compareOrder consults: they are part of the VALUE of a dateTime / time facet (maxInclusive, enumeration ...) that travels through AbstractNumericFacetValidator::storeClusive / XMLNumber::loadNumber
 //@ note compared after load: fValue[0..8), fTimeZone[0..2), fStart, fEnd, fBuffer, fBufferMaxLen, fMilliSecond, fHasTime; NOT compared: fMemoryManager
 //@ note class invariant assumed for the stored object: a null fBuffer has capacity 0; string lengths are not modelled (ids)
 #define VERIF_DEFINE_GHOSTS
